@@ -149,7 +149,8 @@ def check(env, rep, tier):
             if "serve-called" not in marks:
                 bad7 += 1
         for s, rv in tr2.res:
-            if s.ghost.get("has_Block2") is True and "err" not in tr2.ret_kind(rv) and not s.ghost.get(("inj", "block-undecodable")):
+            # (a path that returns without ever looking for the option is taken by requests that carry one, too)
+            if s.ghost.get("has_Block2") is not False and "err" not in tr2.ret_kind(rv) and not s.ghost.get(("inj", "block-undecodable")):
                 n_rem += 1
                 ek = [k for k in s.cells if isinstance(k, tuple) and k[0] == "h" and str(k[1]).startswith("entry")]
                 lb = tr2.I.read(s, Place(ek[0], (("f", tr2.sf.get("last_block2")),))) if ek else None
